@@ -292,12 +292,12 @@ def gen_cases(ctx: Ctx, tier: str, salt: int):
                       "embs": ALL, "predict": 1})
     ctx.extra["behaviours_from_tlc"] = len(cases)
     rng = random.Random(ctx.seed * 1000003 + salt)
-    cap = 3000 if tier == "quick" else 40000
+    cap = 3000 if tier == "quick" else 12000
     if len(cases) > cap:
         rng.shuffle(cases)
         cases = cases[:cap]
     ctx.extra["behaviours_from_tlc_replayed"] = len(cases)
-    n = 400 if tier == "quick" else 5000
+    n = 400 if tier == "quick" else 2500
     for _ in range(n):
         a = random_alloc(rng)
         a["ops"] = random_ops(rng, a["cells"])
